@@ -4,7 +4,7 @@
    V <name> <cs> <reply>    | ok | mismatch | dberror | unexpected | badname
    A <outcomes>             | ok | b<tag> | t<tag> | m<tag> | n | panic | unknown
    E <seed> <q|t>           | <k0> <events> <calls> <texts> <stats>   (end-to-end scenario: the trace is
-                                judged by the acceptor, the USE texts by use_statement / parse_use)
+                                judged by the acceptor / prop_violb, the USE texts by use_statement)
 
    names are comma separated hexadecimal code points ("-" = empty string). *)
 
